@@ -245,9 +245,9 @@ Definition st_logsource : step := fun d =>
 (* detection values and modifiers: only the kind of a value matters for the outcome of loading *)
 Inductive vk :=
 | KStr (special : bool) (enc : N) (src : str)  (* SigmaString; enc: 0 ASCII, 1 contains U+FEFF, 2 other *)
-| KRaw (v : yv)                                (* SigmaString.from_str(v), v unchecked *)
+| KRaw (s : str)                               (* SigmaString.from_str(s): kept verbatim for `re` *)
 | KNum | KBool | KNull
-| KRegex (pat : option str)                    (* pattern text; None: the payload was not a str *)
+| KRegex (pat : str)                           (* pattern text *)
 | KCidr | KCompare | KFieldRef | KExists.
 
 Inductive md :=
@@ -315,48 +315,40 @@ Definition affix_regex (front back : bool) (p : str) : str :=
 Definition apply_value_mod (m : md) (field_none applied : bool) (v : vk) : outcome vk :=
   match m, v with
   | (MContains | MStartswith | MEndswith), KStr _ e s => Ok (KStr true e s)
-  | (MContains | MStartswith | MEndswith), KRaw (YStr s) => Ok (KRaw (YStr s))
-  | (MContains | MStartswith | MEndswith), KRegex (Some p) =>
+  | (MContains | MStartswith | MEndswith), KRaw s => Ok (KRaw s)
+  | (MContains | MStartswith | MEndswith), KRegex p =>
       (* (repaired) regexp_str[:1] / regexp_str[-1:] instead of indexing the empty pattern; val.compile() *)
       let p' := affix_regex (negb (md_eqb m MStartswith)) (negb (md_eqb m MEndswith)) p in
-      if re_ok L p' then Ok (KRegex (Some p')) else SigmaErr ERegex
+      if re_ok L p' then Ok (KRegex p') else SigmaErr ERegex
   | (MContains | MStartswith | MEndswith), KFieldRef => Ok KFieldRef
   | (MBase64 | MBase64Off), KStr sp e s => if sp then SigmaErr EValue else Ok (KStr false 0 s)
-  | (MBase64 | MBase64Off), KRaw (YStr s) => Ok (KRaw (YStr s))
+  | (MBase64 | MBase64Off), KRaw s => Ok (KRaw s)
   | MWide, KStr sp e s => wide_like e 0 sp s
   | MUtf16be, KStr sp e s => wide_like e 0 sp s
   | MUtf16, KStr sp e s => wide_like e 1 sp s
-  | (MWide | MUtf16 | MUtf16be), KRaw (YStr s) => if is_ascii s then Ok (KRaw (YStr s)) else Crash X_Unmodelled
+  | (MWide | MUtf16 | MUtf16be), KRaw s => if is_ascii s then Ok (KRaw s) else Crash X_Unmodelled
   | MWindash, KStr sp e s => Ok (KStr sp e s)
-  | MWindash, KRaw (YStr s) => Ok (KRaw (YStr s))
+  | MWindash, KRaw s => Ok (KRaw s)
   | MCased, KStr sp e s => Ok (KStr sp e s)
-  | MCased, KRaw (YStr s) => Ok (KRaw (YStr s))
+  | MCased, KRaw s => Ok (KRaw s)
   | MExpand, KStr sp e s => Ok (KStr sp e s)
-  | MExpand, KRaw (YStr s) => Ok (KRaw (YStr s))
-  | MExpand, KRegex (Some p) => Ok (KRegex (Some p))
+  | MExpand, KRaw s => Ok (KRaw s)
+  | MExpand, KRegex p => Ok (KRegex p)
   | MFieldref, KStr sp e s => if sp then SigmaErr EValue else Ok KFieldRef
-  | MFieldref, KRaw (YStr s) => Ok KFieldRef
+  | MFieldref, KRaw s => Ok KFieldRef
   | MCidr, KStr sp e s => if applied then SigmaErr EValue else if cidr_ok L s then Ok KCidr else SigmaErr EType
-  | MCidr, KRaw (YStr s) => if applied then SigmaErr EValue else if cidr_ok L s then Ok KCidr else SigmaErr EType
-  | MRe, KRaw v =>
-      if applied then SigmaErr EValue
-      else match v with
-           | YStr s => if re_ok L s then Ok (KRegex (Some s)) else SigmaErr ERegex
-           | YList _ | YMap _ => Crash X_Unmodelled     (* re.compile(str(v)) of a container *)
-           | _ => Ok (KRegex None)                      (* str(v) of a scalar is a valid pattern *)
-           end
-  | MRe, KStr _ _ s =>                                 (* (not reached from from_mapping: with `re` every value is KRaw) *)
-      if applied then SigmaErr EValue else if re_ok L s then Ok (KRegex (Some s)) else SigmaErr ERegex
+  | MCidr, KRaw s => if applied then SigmaErr EValue else if cidr_ok L s then Ok KCidr else SigmaErr EType
+  | MRe, KRaw s =>
+      if applied then SigmaErr EValue else if re_ok L s then Ok (KRegex s) else SigmaErr ERegex
+  | MRe, KStr _ _ s =>                                 (* (not reached from from_mapping: with `re` every str value is KRaw) *)
+      if applied then SigmaErr EValue else if re_ok L s then Ok (KRegex s) else SigmaErr ERegex
   | MFlag, KRegex p => Ok (KRegex p)
   | MCmp, KNum => Ok KCompare
   | MTs, KNum => Ok KNum
   | MExists, KBool => if field_none || applied then SigmaErr EValue else Ok KExists
-  (* a `re`-payload that is not a str, met by a modifier that looks into the text *)
-  | (MContains | MStartswith | MEndswith | MExpand), KRegex None => Crash X_Unmodelled
   | (MAll | MNeq), _ => Ok v
   | (MFlag | MCmp | MTs | MExists), _ => SigmaErr EType
   | MRe, _ => SigmaErr EType
-  | _, KRaw _ => Crash X_Unmodelled
   | _, _ => SigmaErr EType
   end.
 
@@ -376,7 +368,9 @@ Definition from_mapping (key val : yv) : outcome unit :=
   let field_none := match parts with [] :: _ => true | [] => true | _ => false end in
   mods <- md_all (tl parts) ;;
   let val_list := match val with YList l => l | v => [v] end in
-  vals <- (if existsb (md_eqb MRe) mods then Ok (map KRaw val_list) else map_out sigma_type val_list) ;;
+  (* with `re` a str value is kept verbatim; every other value is typed as usual (and then rejected by `re`) *)
+  let has_re := existsb (md_eqb MRe) mods in
+  vals <- map_out (fun v => match v with YStr s => if has_re then Ok (KRaw s) else sigma_type v | _ => sigma_type v end) val_list ;;
   apply_mods mods field_none false vals.
 
 Definition is_plain (v : yv) : bool :=
